@@ -890,8 +890,15 @@ func (e *Exec) exec1(fr *Frame, ins ssa.Instruction) *GoPanic {
 		f, args, inv := e.prepareCall(fr, &x.Call)
 		fr.defers = append(fr.defers, deferred{fn: f, args: args, inv: inv})
 	case *ssa.Go:
-		e.unsupported("go statement in %s", fr.fn)
-	case *ssa.Send, *ssa.Select, *ssa.MakeChan:
+		if !e.ignoreGo {
+			e.unsupported("go statement in %s", fr.fn)
+		}
+		e.w.stats.GoSkipped++ // the harness asked for the calling path only (zz.IgnoreGo): the goroutine is not run
+	case *ssa.MakeChan:
+		// channels are opaque handles: creating one is fine, using one is not supported
+		e.objN++
+		fr.locals[x] = ChanV{id: e.objN}
+	case *ssa.Send, *ssa.Select:
 		e.unsupported("channel operation in %s", fr.fn)
 	case *ssa.ChangeType:
 		fr.locals[x] = e.get(fr, x.X)
